@@ -322,8 +322,12 @@ func (hp *HashPaser) zipmap(cb RdbObjExecutor) {
 	zipmap := r.ReadStringP()
 	buf := util.NewSliceBuffer(zipmap)
 	lenByte := buf.ReadByte()
-	if lenByte >= 254 { // we need to count the items manually
-		length = r.CountZipmapItemsP(buf)
+	if lenByte >= 254 { // 254 or more pairs: count the items (a field and a value per pair)
+		items := r.CountZipmapItemsP(buf)
+		if items%2 != 0 {
+			panicIfErr(fmt.Errorf("zipmap with a field without value : %d items", items))
+		}
+		length = items / 2
 	} else {
 		length = int(lenByte)
 	}
